@@ -126,6 +126,32 @@ def run(chk, scratch):
     verdicts2 = judge(chk, scratch, tr2, "random gated schedules")
     fold(chk, verdicts2, infos2, tr2, "random")
     chk.sample({"trace_head": excerpt(tr2, 1, 12)})
+    # 5. real time: a lock won by taking a dead holder's lock over is HELD; four heartbeat periods later an overriding contender must be refused
+    tr3 = os.path.join(scratch, "takeover-trace.ndjson")
+    p = vlib.run_vh(vh, ["c17", "takeoverhold", "--out", tr3, "--dir", scratch, "--seed", chk.seed, "--n", 12 if thorough else 3], timeout=600)
+    if p.returncode != 0:
+        raise vlib.Inconclusive("c17 takeoverhold driver failed: " + (p.stderr or "")[-1500:])
+    with open(tr3, "a") as f:
+        f.write(json.dumps({"op": "End"}) + "\n")
+    total3 = sum(1 for line in open(tr3) if line.strip())
+    r3 = vlib.run_tlc(scratch, [SPEC], "LockTimedTrace", "LockTimedTrace.cfg", workers=1, timeout=600, deadlock=False, extra_files=[(tr3, "trace.ndjson")], fast=True)
+    if r3.error:
+        raise vlib.Inconclusive("TLC error judging the take-over rounds: " + r3.error)
+    chk.add_tlc("take-over-then-hold rounds judged by LockTimedTrace", r3)
+    m3 = [v for t, v in r3.printed if t == "TRACE_MATCHED"]
+    if not m3 or int(m3[-1]) != total3:
+        raise vlib.Inconclusive("take-over rounds: the trace projection and LockTimedTrace.tla disagree at event %s of %d" % (m3, total3))
+    evs3 = vlib.read_ndjson(tr3)
+    for tag, v in r3.printed:
+        if tag != "VERDICT":
+            continue
+        chk.evaluations += 1
+        chk.traces += 1
+        chk.nontrivial += 1
+        for s_ in v["viol"]:
+            e = evs3[v["id"] - 5001]
+            chk.violation(s_, "take-over then hold, round %s (%s by the overriding contender): %s" % (e.get("id"), e.get("how"), json.dumps(e)), {"event": e})
+    chk.cov["take_over_then_hold_rounds"] = len(evs3) - 1
     chk.cov["rule"] = ("schedule = interleaving of the contenders' mutating backend calls and deciding read blocks, heartbeat writer steps, staleness ticks and a death; "
                        "model schedules come from TLC (one per distinct violating state, shortest + sampled), random ones from a seeded PCT-style scheduler; "
                        "every schedule is executed on real RemoteLockFile objects over MemMapFs / the OS filesystem through the gate; non-trivial = contains a contended acquire")
